@@ -190,16 +190,31 @@ func driveC09(o opts) error {
 		row, err := mp.NewRow(info)
 		if err != nil {
 			fail("NewRow: %v", err)
+			if oracle != "" {
+				w.Add(emit.Case{Term: fmt.Sprintf("CFwd %s (%s) 0%%nat (GNull)", dyn.CoqColTy(syms, c), syms.LVal(v)),
+					JSON: map[string]interface{}{"column": c.Name, "schema": c.SchemaJSON(), "value": v.JSONable()},
+					Key:  "o" + c.Name + v.OrderedKey(), Oracle: oracle})
+			}
 			continue
 		}
 		b, err := json.Marshal(row)
 		if err != nil {
 			fail("marshal: %v", err)
+			if oracle != "" {
+				w.Add(emit.Case{Term: fmt.Sprintf("CFwd %s (%s) 0%%nat (GNull)", dyn.CoqColTy(syms, c), syms.LVal(v)),
+					JSON: map[string]interface{}{"column": c.Name, "schema": c.SchemaJSON(), "value": v.JSONable()},
+					Key:  "o" + c.Name + v.OrderedKey(), Oracle: oracle})
+			}
 			continue
 		}
 		var back ovsdb.Row
 		if err := json.Unmarshal(b, &back); err != nil {
 			fail("row decoding of %s: %v", b, err)
+			if oracle != "" {
+				w.Add(emit.Case{Term: fmt.Sprintf("CFwd %s (%s) 0%%nat (GNull)", dyn.CoqColTy(syms, c), syms.LVal(v)),
+					JSON: map[string]interface{}{"column": c.Name, "schema": c.SchemaJSON(), "value": v.JSONable()},
+					Key:  "o" + c.Name + v.OrderedKey(), Oracle: oracle})
+			}
 			continue
 		}
 		if _, present := row[c.Name]; !present {
